@@ -24,6 +24,7 @@ META = {
 META['explanation'] += ' Every division by a run-time CPU count in myth_bind_worker.c is taken where the count was tested non-zero (C15.3).'
 INITF = 'myth_init.c'
 BINDF = 'myth_bind_worker.c'
+NATIVE_C = 'myth_if_native.c'
 UNINIT, INITIALIZING, INITIALIZED = 0, 1, 2
 STATE = 'g_myth_init_state'
 
@@ -73,6 +74,19 @@ def rule1_init(ctx, fl):
             h = f.blocks[lp['header']].insts[0]
             ctx.ob('C15.1', 'wait loop yields the OS thread and re-reads the state', bool(ys) and h not in f.reachable_from(h, blocked=ys),
                    'losers of the election poll with sched_yield', loc=t.loc)
+    # the inline guard every API entry point goes through: it skips myth_init_ex_body only where the state was read as
+    # `initialized` (hand mutant r6: `!= uninit` lets a second caller through while the first is still initialising)
+    ev = ctx.view(NATIVE_C, roots=['myth_ensure_init_ex'], stops=('myth_init_ex_body',), flavour=fl)
+    e = ctx.need_fn(ev, 'myth_ensure_init_ex')
+    ecalls = call_sites(e, 'myth_init_ex_body')
+    etests = [ic for ic in e.order if ic.op == 'icmp' and ic.pred in ('eq', 'ne') and const_int(ic.ops[1]) == INITIALIZED and
+              e.sources(ic.ops[0]) and all(k in e.insts and e.insts[k] in gstate_accesses(e, 'load') for k in e.sources(ic.ops[0]))]
+    ctx.ob('C15.1', 'ensure_init: falls back to myth_init_ex_body', len(ecalls) == 1, 'the guard calls the initialiser', loc=e.loc)
+    from .c14 import reaches_without_completion as _rwc
+    for r in e.exits():
+        ctx.ob('C15.1', 'ensure_init: skips initialisation only when the state is initialized', not _rwc(e, r, ecalls, etests),
+               'every path to return passes myth_init_ex_body (which waits) or a state == initialized edge: "not uninit" is also true '
+               'while another thread is half-way through initialisation', loc=r.loc)
     g = ctx.need_fn(v, 'myth_fini_body')
     st = [s for s in gstate_accesses(g, 'store')]
     ctx.ob('C15.1', 'fini: resets to uninit', len(st) == 1 and const_int(st[0].ops[0]) == UNINIT, 'state := uninit', loc=g.loc)
@@ -682,6 +696,8 @@ INITC = 'src/myth_init.c'
 BIND = 'src/myth_bind_worker.c'
 INITH = 'src/myth_init_func.h'
 MUTANTS = [
+    {'name': 'ensure_init lets callers through while another thread is still initialising (hand mutant r6)', 'expect': 'C15.1',
+     'edits': [('src/myth_init_func.h', "  if (g_myth_init_state == myth_init_state_initialized) {\n    return 1;\n  } else {\n    return myth_init_ex_body(attr);", "  if (g_myth_init_state != myth_init_state_uninit) {\n    return 1;\n  } else {\n    return myth_init_ex_body(attr);")]},
     {'name': 'worker-to-CPU map divides by an empty CPU set (seed6 C15/m1)', 'expect': 'C15.3',
      'edits': [('src/myth_bind_worker.c', "  assert(n_available_cpus >= 0);\n  if (n_available_cpus == 0) {\n    return -1;\t\t\t/* no bind */\n  } else {\n    return worker_cpu[rank % n_available_cpus];\n  }", "  if (n_available_cpus < 0) {\n    return -1;\n  }\n  return worker_cpu[rank % n_available_cpus];")]},
     {'name': 'secondary workers start without clearing the scheduler stack pointer that cleanup frees (seed5 C15/m1)', 'expect': 'C15.7',
